@@ -60,6 +60,16 @@ def failing_elements(fmt):
 BAD_OPTS = {'ds9': {'precision': 'x'}, 'crtf': {'radunit': 'parsec'}, 'fits': {'header': 12345}}
 
 
+def given_opts(fmt, variant):
+    """Valid non-default options of each writer (they must reach the file whichever entry point is used)."""
+    if fmt == 'ds9':
+        return {'precision': 5 + variant % 3}
+    if fmt == 'crtf':
+        return [{'fmt': '.8f'}, {'coordsys': 'galactic'}, {'radunit': 'arcsec', 'fmt': '.3f'}][variant % 3]
+    from astropy.io import fits
+    return {'header': fits.Header([('EXTNAME', 'REGION'), ('OBSERVER', f'verif{variant}')])}
+
+
 def classify(path, old, new_check):
     if os.path.islink(path):
         return {'t': 'link'}
@@ -131,10 +141,14 @@ def run_case(ctx, sc, req, allowed, variant, rnd):
     """Execute one model request with real files; return the observed (result, fs)."""
     from regions import Regions
     fmt, ow, ser, dest = req['fmt'], req['ow'], req['ser'], req['dest']
+    content, via, optsel = req['content'], req['via'], req['opts']
     ext = EXT[fmt][variant % len(EXT[fmt])]
     pix, sky = good_lists()
     items = {'ds9': list(pix) + (list(sky) if variant % 2 else []), 'crtf': list(sky), 'fits': list(pix)}[fmt]
-    if fmt != 'fits' and variant % 4 >= 2:
+    if content == 'nothing':
+        # nothing the format can express: an empty list, or (FITS) sky regions only, which the serialiser skips with a warning
+        items = list(sky) if (fmt == 'fits' and variant % 2) else []
+    elif fmt != 'fits' and variant % 4 >= 2:
         # text outside ASCII is ordinary content: it must reach the file (or the file must stay as it was)
         import astropy.units as u  # noqa
         from astropy.coordinates import SkyCoord
@@ -142,29 +156,32 @@ def run_case(ctx, sc, req, allowed, variant, rnd):
         import regions as R
         items.append(R.TextSkyRegion(SkyCoord(12, 22, unit='deg'), '\u03b1 Cen \u2013 caf\u00e9'))
     opts = {}
-    how = 'Regions'
+    how = 'Region' if via == 'single' else 'Regions'
     inject = None
+    single = None
     if ser == 'fail':
-        cands = [c for c in failing_elements(fmt)]
-        mode = variant % (len(cands) + 1)
-        if mode == len(cands):
+        if optsel == 'given':
             opts = dict(BAD_OPTS[fmt])
             inject = 'bad-option'
         else:
-            name, el = cands[mode]
-            pos = (variant // (len(cands) + 1)) % (len(items) + 1)
+            cands = [c for c in failing_elements(fmt)]
+            name, el = cands[variant % len(cands)]
+            pos = (variant // len(cands)) % (len(items) + 1)
             items.insert(pos, el)
+            single = el
             inject = f'{name}@{pos}'
-    elif variant % 3 == 0:
-        how = 'Region'
-    obj = items[0] if how == 'Region' else Regions(items)
+    elif optsel == 'given':
+        opts = given_opts(fmt, variant)
+    if how == 'Region':
+        single = single if single is not None else items[variant % len(items)]
+    obj = single if how == 'Region' else Regions(items)
     # does serialisation really fail for this list?  (the model takes it as a parameter)
     try:
         with warnings.catch_warnings():
             warnings.simplefilter('ignore')
-            if fmt == 'fits' and 'header' in opts:
+            if fmt == 'fits' and 'header' in opts and opts is not None and inject == 'bad-option':
                 raise ValueError('bad header option')
-            obj.serialize(format=fmt, **opts)
+            obj.serialize(format=fmt, **{k: v for k, v in opts.items() if k != 'header'})
         really_fails = False
     except Exception:  # noqa
         really_fails = True
@@ -177,6 +194,10 @@ def run_case(ctx, sc, req, allowed, variant, rnd):
         text, parsed = expected_new(obj, fmt, opts)
     else:
         text, parsed = None, None
+    if text is not None and fmt != 'fits' and text.encode() == old:
+        # an empty list written over an empty file: old and new content cannot be told apart, nothing to observe
+        sc.setup('absent', ext, old)
+        return 'indistinguishable', inject
 
     def is_new(path, data):
         if parsed is None:
@@ -186,13 +207,17 @@ def run_case(ctx, sc, req, allowed, variant, rnd):
         try:
             with warnings.catch_warnings():
                 warnings.simplefilter('ignore')
+                if 'header' in opts:
+                    from astropy.io import fits
+                    if fits.getheader(path, 1).get('OBSERVER') != opts['header']['OBSERVER']:
+                        return False
                 return same_regions(Regions.read(path, format='fits'), parsed)
         except Exception:  # noqa
             return False
     result = do_write(obj, a, fmt, ow, opts)
     fs = {'a': classify(a, old, is_new), 'b': classify(b, old, is_new)}
     case = {'request': req, 'injected': inject, 'via': how, 'ext': ext, 'observed': {'result': result, 'fs': fs}, 'allowed': allowed}
-    ctx.case((fmt, ow, ser, dest, inject, how, ext), True)
+    ctx.case((fmt, ow, ser, dest, content, optsel, inject, how, ext), True)
     ok = any(result == r and fs == f for r, f in allowed)
     if not ok:
         changed = fs != init_fs(dest)
@@ -223,6 +248,9 @@ def read_back(ctx, sc, path, fmt, parsed, case):
             fo.write(fi.read())
     routes = [('format given', path, fmt), ('by extension', path, None), ('by content of a renamed copy', renamed, None),
               ('gzip copy, by extension', gz_ext, None), ('gzip copy, by content', gz_sig, None), ('renamed copy, format given', renamed, fmt)]
+    if os.path.getsize(path) == 0:
+        # an empty DS9 file (an empty list) carries no content signature to infer a format from
+        routes = [r for r in routes if 'by content' not in r[0]]
     for name, p, f in routes:
         ctx.case(('readback', fmt, name), True)
         try:
@@ -262,7 +290,7 @@ def run(ctx):
     allowed = {}
     for st in parse_dump(res.dump_path, only='pc = "done"'):
         r = st['req']
-        key = (r['fmt'], r['ow'], r['ser'], r['dest'])
+        key = (r['fmt'], r['ow'], r['ser'], r['dest'], r['content'], r['via'], r['opts'])
         fs = model_view(st['fs'])
         fs = json.loads(json.dumps(fs).replace('"new"', '"new"'))
         allowed.setdefault(key, [])
@@ -275,7 +303,7 @@ def run(ctx):
         unexercised = set()
         nvar = 9 if quick else 40
         for key, outs in sorted(allowed.items()):
-            req = dict(zip(('fmt', 'ow', 'ser', 'dest'), key))
+            req = dict(zip(('fmt', 'ow', 'ser', 'dest', 'content', 'via', 'opts'), key))
             hit = False
             for variant in range(nvar):
                 obs, inject = run_case(ctx, sc, req, outs, variant, rnd)
